@@ -306,6 +306,11 @@ fn base_fits_docs(rng: &mut Rng) -> Vec<(String, Vec<u8>)> {
     let rows: Vec<(u64, f64)> = vec![(4 + 3, 0.02 / (16.0 * apc)), (16 + 20, 0.3 / (4.0 * apc)), (64 + 100, 0.1 / apc), (64 + 101, 0.5 / apc), (16 + 40, 0.05 / (4.0 * apc))];
     docs.push(("mom".to_string(), crate::c20::mom_fits(2, &rows)));
   }
+  {
+    // a small well-formed sky map (depth 1, 48 pixels), besides the repository's sample below
+    let pix: Vec<u64> = (0..48u64).map(|i| (i * 7 + 3) % 11).collect();
+    docs.push(("skymap".to_string(), crate::c20::skymap_fits(1, &pix)));
+  }
   // multi-order map and sky map: the repository's sample files, cut to a few rows
   for (name, path) in [("mom", "/repo/resources/LALInference.multiorder.fits"), ("skymap", "/repo/resources/Skymap/gbuts_healpix_systematic.fits")] {
     if let Ok(full) = std::fs::read(path) {
@@ -568,6 +573,16 @@ pub fn run(ctx: &Ctx) -> Report {
     }
     rep.notes.push(format!("structural sweep cases: {}", cases.len()));
   }
+  // every base document, unmodified, beside the byte-level reader models
+  for (name, base) in &docs {
+    if base.len() <= 16_000 {
+      match name.as_str() {
+        "mom" => { fitsx::compare_reader_mom(&mut rep, &mut orc, base, name, "unmodified"); }
+        "skymap" => { fitsx::compare_reader_sky(&mut rep, &mut orc, base, name, "unmodified"); }
+        _ => { fitsx::compare_reader_fits(&mut rep, &mut orc, base, name, "unmodified"); }
+      }
+    }
+  }
   let n_sweep = cases.len() as u64;
   for i in 0..(n_sweep + n_fits) {
     if i >= n_sweep && (i - n_sweep) % 200 == 199 {
@@ -582,6 +597,9 @@ pub fn run(ctx: &Ctx) -> Report {
     };
     let kind = if name == "mom" || name == "skymap" { name.as_str() } else { "fits" };
     k += 1;
+    if kind == "skymap" && doc.len() <= 16_000 {
+      fitsx::compare_reader_sky(&mut rep, &mut orc, &doc, &name, &what);
+    }
     if kind == "mom" && doc.len() <= 16_000 {
       fitsx::compare_reader_mom(&mut rep, &mut orc, &doc, &name, &what);
     }
